@@ -2,6 +2,7 @@
    Input:
      <id> F <hex file>                                        the bytes of the following cases
      <id> f <hex file>                                        the same, not counted in the tameness statistics
+     <id> I <hex>                                             IntObjects.parse_int on these bytes
      <id>.<cut> C <cut> <x|-> <k> {<off>:<class>:<val>}       scan the first <cut> bytes; the outcome of the
                                                               real object parser at the k located candidates;
                                                               x = also print the rebuilt xref table
@@ -91,6 +92,14 @@ let () =
         incr nfiles;
         if WindowTheorems.tameb !file then incr ntame
       end
+    | id :: "I" :: hexs ->
+      (* H-parse instance: the reader of integer objects on these bytes (none: the empty input) *)
+      let hex = match hexs with h :: _ -> h | [] -> "" in
+      (match IntObjects.parse_int (bytes_of_hex hex) with
+       | POk v ->
+         let n = Stdlib.List.fold_left (fun a d -> a * 10 + (int_of_n d - 48)) 0 v in
+         Printf.printf "%s ok:%d\n" id n
+       | _ -> Printf.printf "%s fail\n" id)
     | id :: "C" :: cut :: x :: k :: rest ->
       memo := [];
       let data = prefix (int_of_string cut) in
